@@ -22,6 +22,23 @@ CHECKS.update({
    text="TLC computes R^dagger A R exactly for every plane (i,j), every (theta,delta) residue pair on the pi/4 lattice and every basis element, the mixing matrix as the documented ordered product, U^dagger A U and U A U^dagger; it checks unitarity, sparse=dense, inverse by negated angle, B0 o B1 = id, trace and scalar products; the real Rotate, GetTransformationMatrix, RotateToB1/B0, Rotate(U), UTransform(U), UDaggerTransform(U) are compared entrywise.",
    note="Off-lattice angles not decided; quick tier samples d=5,6 rotations 1 in 8."),
 })
+CHECKS.update({
+ "C05": dict(cat="model_checking", sec="5/C05", tech="TLA+ Observables (exact Q(zeta8) traces, dyadic interpolation weights, must-throw set); TLC checks the laws and exports every query; replay on a derived SQuIDS object",
+   text="TLC explores grids (linear, log, user) x evolution histories x query points (nodes, midpoints, quarter points, both sides outside) and computes Tr(rho_S O), the convex interpolation and the D-forms exactly; it checks node/D-form agreement, convexity, Schroedinger=Heisenberg picture, averaged=plain for unreachable scale; all seven entry points of the real object are compared with the exact values and out-of-range x must throw on both sides.",
+   note="States/operators are integer patterns on the pi/4 phase lattice; tolerance 512 eps x norms x (1+|phase|)."),
+ "C08": dict(cat="model_checking", sec="5/C08", tech="TLA+ SUVec (ownership/cache/theft state machine with exact values); TLC exhaustive over call histories; path cover replayed on the real library; recorded states validated by TLC (SUVecTrace)",
+   text="TLC checks UniqueOwner, MovedFromSafe, ExternalExact, HeapSound, NoLeak, WriteFrame, ExternalStable, FailureFrame, CopyIndependent on every reachable state/step of all call histories up to the bound; every (state, call) pair is executed on the real library and the recorded implementation state (dimension, storage identity, ownership flags, exact contents of every vector and user buffer, heap events) must be explained by the specification; seeded random histories on 6 vectors of all dimensions likewise.",
+   note="Trusts TLC, the driver's projection (verif_access fields, operator new[]/delete[] ledger). Policy 'any' accepts every storage strategy the property allows (steal or allocate, cache or free)."),
+ "C09": dict(cat="model_checking", sec="5/C09", tech="TLA+ SUVec one-step shape exploration (SpecShape): statement kinds x 9 operations x prepared pools x operand choices; exact values; every exported statement executed and its trace validated by TLC",
+   text="From each of 6^3 prepared pools TLC takes every statement t {=,+=,-=,ctor} op(a,b) with every operand assignment (all alias patterns including a shared user buffer), value category and operation; the action defines the stored value as Combine(w, old target, op(a,b)) on exact matrices and the exception verdict; the real statements (with guarantee flag sets reduced to the true flags, several dimension pairs) must produce exactly those values, verdicts and unmodified operands.",
+   note="Quick tier replays a hashed subset of the statements per dimension pair; thorough replays all for (2,3). Time steps are multiples of pi/2; user element-wise op is x+2y."),
+ "C17": dict(cat="model_checking", sec="5/C17", tech="TLA+ Grid (Get_i transcription, Bracket oracle, vector overload rule) checked exhaustively by TLC; admissible-answer tables replayed on real objects; seeded executions validated by GridTrace",
+   text="TLC enumerates all grids within the bound and every quarter-integer x, checks that the (repaired) lookup returns an element of Bracket and throws exactly outside; the as-coded transcription yields counterexamples that are reproduced on the real method; every (grid,x) is executed on real objects in three exact affine images and must return an admissible answer; Set_xrange monotonicity/end points/spacing are validated on integer-measured deviations.",
+   note="Accuracy bounds: 4 units (linear), 8 units in log x (log scale)."),
+ "C19": dict(cat="model_checking", sec="5/C19", tech="TLA+ LFCache (one action per atomic operation, spurious CAS failures) exhaustively model checked; every transition replayed on the real Cache.h by a deterministic coroutine scheduler; random schedules validated by LFCacheTrace; SeqCache for the sequential clause",
+   text="TLC explores every interleaving at atomic-operation granularity for 2-3 threads and capacities 1-4 checking AtMostOnce, OnlyInserted, FailedInsertKeeps and Drain; each transition of the 2-thread graphs (and seeded 3-thread behaviours) is executed on the real shared cache with the state compared after every step; seeded random real schedules are validated against the specification; all insert/get strings up to length 10 on both cache variants are compared with the bounded LIFO model.",
+   note="Sequentially consistent interleavings at yield-point granularity; weak-memory effects are out of scope of the specification."),
+})
 NA = {}
 def main():
     checks = []
